@@ -34,6 +34,8 @@ pub fn main(args: &[String]) -> i32 {
             }
         })));
     }
+    // a stale socket file of a previous (killed) server must not be mistaken for readiness
+    let _ = std::fs::remove_file(path.join("sock"));
     let store = Store::new(path.clone());
     let engine = xs::nu::Engine::new().expect("nu engine");
     rt.block_on(async {
